@@ -26,16 +26,18 @@ EXTENDS LexerCore, PumpCore, FiniteSets, Json, TLCExt
 
 CONSTANTS TracePrefix, Groups
 
-VARIABLES stage, grp, rec
-tvars == <<input, stage, grp, rec>>
+VARIABLES stage, grp, file, rec
+tvars == <<input, stage, grp, file, rec>>
 
-Init == stage = 0 /\ grp = 0 /\ rec = <<>> /\ input = <<>>
+Init == stage = 0 /\ grp = 0 /\ file = <<>> /\ rec = <<>> /\ input = <<>>
 Next == \/ /\ stage = 0 /\ stage' = 1 /\ \E g \in 0..(Groups - 1) : grp' = g
-           /\ UNCHANGED <<rec, input>>
-        \/ /\ stage = 1 /\ stage' = 2
-           /\ LET F == ndJsonDeserialize(TracePrefix \o ToString(grp) \o ".ndjson") IN
-              \E t \in 1..Len(F) : rec' = F[t] /\ input' = F[t].input
-           /\ UNCHANGED grp
+           /\ UNCHANGED <<file, rec, input>>
+        \/ /\ stage = 1 /\ stage' = 2            \* a worker loads one file ...
+           /\ file' = ndJsonDeserialize(TracePrefix \o ToString(grp) \o ".ndjson")
+           /\ UNCHANGED <<grp, rec, input>>
+        \/ /\ stage = 2 /\ stage' = 3            \* ... and judges each of its records
+           /\ \E t \in 1..Len(file) : rec' = file[t] /\ input' = file[t].input
+           /\ file' = <<>> /\ UNCHANGED grp
 TraceSpec == Init /\ [][Next]_tvars
 
 SameTok(a, b) == a.type = b.type /\ a.lit = b.lit /\ a.line = b.line /\ a.col = b.col
@@ -66,5 +68,5 @@ RecVerdict ==
       viol |-> IF rec.lexed THEN {k \in 1..Len(real) : ~LocatedS(starts, real[k])} \cup (IF endsOk THEN {} ELSE {0}) ELSE {},
       runs |-> [j \in 1..Len(rec.runs) |-> RunVerdict(starts, rec.runs[j])]]
 
-Verdict == stage = 2 => PrintT(<<"BEHAVIOUR", ToJson(RecVerdict)>>)
+Verdict == stage = 3 => PrintT(<<"BEHAVIOUR", ToJson(RecVerdict)>>)
 =============================================================================
